@@ -121,6 +121,9 @@ def Lbl.isInput : Lbl → Bool
   | .deliver _ => true
   | _ => false
 
+/-- the `d`-th delivery in flight: (event, next consumer) -/
+def delAt (s : St) (d : Nat) : Nat × Nat := (s.dels[d]?).getD (0, 0)
+
 def allClosed (c : Cfg) (s : St) : Bool := (List.range c.k).all (fun t => s.closed t)
 
 /-- is the label enabled -/
@@ -144,51 +147,45 @@ def enabled (c : Cfg) (s : St) : Lbl → Bool
   | .recvTerm t => decide (t < c.k) && decide (s.pc t = .selecting) && !s.nilChan t && decide (0 < s.termBuf t)
   | .deliver a => decide (a < c.k)
   | .forward d =>
-    match s.dels[d]? with
-    | none => false
-    | some (_, n) => decide (n < c.k) && decide ((s.inbox n).length < c.inboxCap)
+    decide (d < s.dels.length) && decide ((delAt s d).2 < c.k) &&
+      decide ((s.inbox (delAt s d).2).length < c.inboxCap)
 
-/-- effect of an enabled label -/
+/-- effect of an enabled label (conditions are pushed into the field values: easier to project) -/
 def fire (c : Cfg) (s : St) : Lbl → St
   | .enterSelect i =>
     { s with pc := upd s.pc i .selecting, nilChan := upd s.nilChan i s.mapGone,
              inbox := upd s.inbox i (s.inbox i ++ [.reg]) }
   | .node j =>
-    match s.inbox j with
-    | [] => s
-    | .reg :: rest => { s with inbox := upd s.inbox j rest, active := upd s.active j true }
-    | .ev a :: rest =>
-      if s.active j = true ∧ a = j then
-        { s with inbox := upd s.inbox j rest, npc := upd s.npc j .sending }
-      else { s with inbox := upd s.inbox j rest }
+    -- `reg`: the flow's reply channel is parked, the node is activated; `ev j` while activated: the node starts
+    -- sending the action on the parked channel; anything else is dropped
+    { s with inbox := upd s.inbox j (s.inbox j).tail,
+             active := if (s.inbox j).head? = some .reg then upd s.active j true else s.active,
+             npc := if (s.inbox j).head? = some (.ev j) ∧ s.active j = true then upd s.npc j .sending else s.npc }
   | .send j =>
-    if c.replyCap = 0 then
-      { s with npc := upd s.npc j .idle, active := upd s.active j false, pc := upd s.pc j .gotAction }
-    else
-      { s with npc := upd s.npc j .idle, active := upd s.active j false,
-               replyBuf := upd s.replyBuf j (s.replyBuf j + 1) }
+    { s with npc := upd s.npc j .idle, active := upd s.active j false,
+             pc := if c.replyCap = 0 then upd s.pc j .gotAction else s.pc,
+             replyBuf := if c.replyCap = 0 then s.replyBuf else upd s.replyBuf j (s.replyBuf j + 1) }
   | .takeAction j => { s with pc := upd s.pc j .gotAction, replyBuf := upd s.replyBuf j (s.replyBuf j - 1) }
   | .enterTransformer i => { s with pc := upd s.pc i .inTransformer }
   | .cas i =>
-    match s.first with
-    | none => { s with first := some i, pc := upd s.pc i .notifying }
-    | some _ => { s with pc := upd s.pc i .completed, wg := s.wg - 1 }
+    { s with first := if s.first = none then some i else s.first,
+             pc := upd s.pc i (if s.first = none then .notifying else .completed),
+             wg := if s.first = none then s.wg else s.wg - 1 }
   | .pick _ t => { s with target := some t }
   | .notify _ t =>
-    if c.termCap = 0 then
-      { s with pc := upd s.pc t .terminated, closed := upd s.closed t true, wg := s.wg - 1, target := none }
-    else { s with termBuf := upd s.termBuf t (s.termBuf t + 1), closed := upd s.closed t true, target := none }
+    { s with closed := upd s.closed t true, target := none,
+             pc := if c.termCap = 0 then upd s.pc t .terminated else s.pc,
+             wg := if c.termCap = 0 then s.wg - 1 else s.wg,
+             termBuf := if c.termCap = 0 then s.termBuf else upd s.termBuf t (s.termBuf t + 1) }
   | .closeOwn i => { s with closed := upd s.closed i true, target := none }
   | .finish i => { s with pc := upd s.pc i .continued, mapGone := s.mapGone || c.mapReplaced }
   | .recvTerm t =>
     { s with pc := upd s.pc t .terminated, termBuf := upd s.termBuf t (s.termBuf t - 1), wg := s.wg - 1 }
   | .deliver a => { s with dels := s.dels ++ [(a, 0)] }
   | .forward d =>
-    match s.dels[d]? with
-    | none => s
-    | some (a, n) =>
-      { s with inbox := upd s.inbox n (s.inbox n ++ [.ev a]),
-               dels := if n + 1 = c.k then s.dels.eraseIdx d else s.dels.set d (a, n + 1) }
+    { s with inbox := upd s.inbox (delAt s d).2 (s.inbox (delAt s d).2 ++ [.ev (delAt s d).1]),
+             dels := if (delAt s d).2 + 1 = c.k then s.dels.eraseIdx d
+                     else s.dels.set d ((delAt s d).1, (delAt s d).2 + 1) }
 
 def step (c : Cfg) (l : Lbl) (s : St) : Option St := if enabled c s l then some (fire c s l) else none
 
@@ -287,17 +284,25 @@ winner has finished; it waits on a nil channel and is never withdrawn. -/
 def lateSelectSched (replyBuffered : Bool) : List Lbl :=
   [.enterSelect 0, .node 0] ++ deliverSched 2 0 ++ [.node 0, .send 0]
     ++ (if replyBuffered then [.takeAction 0] else [])
-    ++ [.enterTransformer 0, .cas 0, .pick 0 1, .notify 0 1, .pick 0 0, .closeOwn 0, .finish 0, .enterSelect 1, .node 1,
+    ++ [.enterTransformer 0, .cas 0, .pick 0 1, .notify 0 1, .pick 0 0, .closeOwn 0, .finish 0, .node 1, .enterSelect 1,
         .node 1]
 
-/-- D21 (`replyCap = 0`): alternative 0 wins while 1 is withdrawn through its termination channel; the late event of
-alternative 1 makes node 1 send on the dead flow's reply channel forever; `inboxCap` further deliveries fill its
-inbox and the next one blocks its caller. (`termBuffered` selects the variant for `ebgTermCap ≥ 1`.) -/
-def lateBlockSched (termBuffered : Bool) (inboxCap : Nat) : List Lbl :=
-  setupSched 2 ++ deliverSched 2 0 ++ [.node 0, .send 0, .enterTransformer 0, .cas 0, .node 1, .pick 0 1, .notify 0 1]
+/-- the good run: alternative 0's event arrives alone, 0 wins, 1 is withdrawn through its termination channel
+(`termBuffered`: `ebgTermCap ≥ 1`, the loser reads the buffered `true`; `replyBuffered`: `catchReplyCap ≥ 1`) -/
+def settleSched (termBuffered replyBuffered : Bool) : List Lbl :=
+  setupSched 2 ++ deliverSched 2 0 ++ [.node 0, .send 0] ++ (if replyBuffered then [.takeAction 0] else [])
+    ++ [.enterTransformer 0, .cas 0, .node 1, .pick 0 1, .notify 0 1]
     ++ (if termBuffered then [.recvTerm 1] else []) ++ [.pick 0 0, .closeOwn 0, .finish 0]
-    ++ deliverSched 2 1 ++ [.node 0, .node 1]
-    ++ (List.range inboxCap).flatMap (fun _ => deliverSched 2 1 ++ [.node 0])
-    ++ [.deliver 1, .forward 0, .node 0]
+
+/-- D21 (`replyCap = 0`), first half: after the gateway has settled the event of the withdrawn alternative 1 is
+delivered; node 1 is still activated and starts sending on the reply channel of the dead flow — forever. -/
+def lateEventSched : List Lbl := deliverSched 2 1 ++ [.node 0, .node 1]
+
+/-- D21, second half: `inboxCap` further deliveries fill the stuck node's inbox and the next one blocks its caller -/
+def lateFillSched (inboxCap : Nat) : List Lbl :=
+  (List.range inboxCap).flatMap (fun _ => deliverSched 2 1 ++ [.node 0]) ++ [.deliver 1, .forward 0, .node 0]
+
+def lateBlockSched (termBuffered : Bool) (inboxCap : Nat) : List Lbl :=
+  settleSched termBuffered false ++ lateEventSched ++ lateFillSched inboxCap
 
 end Bpmn.Model.EventGateway
